@@ -200,6 +200,14 @@ Proof. exact C20.Proofs.no_trap_link_score. Qed.
 Theorem no_trap_derived_constant : forall upem v, u16 upem -> 0 <= v <= 32767 -> derived_constant upem v <> None.
 Proof. exact C20.Proofs.no_trap_derived_constant. Qed.
 
+(* ---- CFF / CFF2 INDEX object lookup and subroutine numbers ---- *)
+Theorem no_trap_index_get : forall index count off_size,
+  0 <= index <= 18446744073709551615 -> 0 <= count <= 4294967295 -> 0 <= off_size <= 255 ->
+  index_get_positions index count off_size <> None.
+Proof. exact C20.Proofs.no_trap_index_get. Qed.
+Theorem no_trap_subr_biased_index : forall v bias, i16 v -> 0 <= bias <= 32768 -> subr_biased_index v bias <> None.
+Proof. exact C20.Proofs.no_trap_subr_biased_index. Qed.
+
 Print Assumptions no_trap_floor.
 Print Assumptions no_trap_round.
 Print Assumptions no_trap_ceil.
@@ -269,3 +277,5 @@ Print Assumptions device_count_value.
 Print Assumptions no_trap_svg_doc_slice.
 Print Assumptions no_trap_link_score.
 Print Assumptions no_trap_derived_constant.
+Print Assumptions no_trap_index_get.
+Print Assumptions no_trap_subr_biased_index.
